@@ -89,7 +89,7 @@ SPECS = [
     Spec(GROUP, "iso_resend_test", F, XC, [("data", BYTES)], binds=_PNI, path=_CMD_TRY, stmts=[2],
          expr="data[0] == 0xA2 | (~self.pni & 1)", note="cut: " + _C + "inside `try`: R(ACK) with the other block number -> retransmit"),
     Spec(GROUP, "iso_resend_budget", F, XC, [("i", INT)], binds=_NAK, path=_CMD_TRY + [(2, "body")], stmts=[0],
-         note="cut: " + _C + "a retransmission after R(ACK) counts against the retry limit: PROTOCOL_ERROR beyond it"),
+         note="cut: " + _C + "a retransmission after R(ACK) counts against the retry limit: PROTOCOL_ERROR beyond `n_retry_nak + 1`"),
     Spec(GROUP, "iso_resend_blk", F, XC, [("pfb", BYTES), ("command", BYTES), ("offset", INT)], binds=_MIU,
          path=_CMD_TRY + [(2, "body")], stmts=[2], result=["data"], note="cut: " + _C + "the retransmitted I-block"),
     Spec(GROUP, "iso_nak_on_transmission", F, XC, [("i", INT)], binds=_NAK + _PNI, path=_cmd_h(0), stmts=[0], result=["data"],
@@ -191,7 +191,7 @@ BRIDGE = {
         "select_fid_bridge", "select_app_bridge", "cclen_bridge", "discover4_bridge", "read_loop4_bridge", "nlen_bridge",
         "read_file4_bridge", "discover4_nlen", "read_ndef4_bridge", "cutData_sound", "cutNlen_sound", "chunk_cmds_bridge", "pack_nlen", "plan_write_bridge",
         "gen_t4_read_safe",
-        "gen_more_false_last")],
+        "gen_more_false_last", "gen_exchange_is_c12", "gen_terminates", "gen_at_most_once_exact")],
     "properties": ["C12", "C16", "C08", "C01"],
 }
 
@@ -348,8 +348,8 @@ MUTATIONS = [
     ("iso_wtx_step", "WTXM 60 accepted", "if wtxm == 0 or wtxm > 59:", "if wtxm == 0 or wtxm > 60:"),
     ("iso_wtx_step", "limit compared before the sum is updated", "            wtxm_sum += wtxm\n            if wtxm_sum > self.max_wtxm_sum:",
      "            if wtxm_sum > self.max_wtxm_sum:"),
-    ("iso_resend_budget", "retransmission budget off by one", "if i > self.n_retry_nak:\n                            log.error(\"ISO-DEP too many retransmit requests\")",
-     "if i > self.n_retry_nak + 1:\n                            log.error(\"ISO-DEP too many retransmit requests\")"),
+    ("iso_resend_budget", "retransmission budget off by one", "if i > self.n_retry_nak + 1:\n                            log.error(\"ISO-DEP too many retransmit requests\")",
+     "if i > self.n_retry_nak:\n                            log.error(\"ISO-DEP too many retransmit requests\")"),
     ("iso_chain_chk", "response size limit", "len(response) > 65538", "len(response) > 65539"),
     ("iso_latch_chk", "latched error also blocks the presence check", "if command is not None and self.errno is not None:",
      "if self.errno is not None:"),
